@@ -180,6 +180,16 @@ static void gen_step(long hist, int step, int cfg, jwt_builder_t *reused, bctx_t
 	/* reconfiguration between generates, applied to the reused builder and to its fresh twin alike:
 	 * 6 = switch to alg none / no key for this token, 7 = put a typ header of the application's own (without replace) */
 	if (action == 6) { jwt_builder_setkey(reused, JWT_ALG_NONE, NULL); jwt_builder_setkey(fresh, JWT_ALG_NONE, NULL); vk = NULL; }
+	if (action == 8) {
+		/* a header and a claim string that is not valid UTF-8: refused or not, generate afterwards either works or says why */
+		jwt_value_t hv;
+		jwt_set_SET_STR(&hv, "x", "caf\xe9"); jwt_builder_header_set(reused, &hv);
+		jwt_set_SET_STR(&hv, "x", "caf\xe9"); jwt_builder_header_set(fresh, &hv);
+		if (step & 1) {
+			jwt_set_SET_STR(&hv, "y", "\xff\xfe"); jwt_builder_claim_set(reused, &hv);
+			jwt_set_SET_STR(&hv, "y", "\xff\xfe"); jwt_builder_claim_set(fresh, &hv);
+		}
+	}
 	if (action == 7) {
 		jwt_value_t hv;
 		jwt_set_SET_STR(&hv, "typ", "at+jwt"); jwt_builder_header_set(reused, &hv);
@@ -207,6 +217,7 @@ static void gen_step(long hist, int step, int cfg, jwt_builder_t *reused, bctx_t
 		jwt_builder_error_clear(reused);
 	}
 	if (action == 7) jwt_builder_header_del(reused, "typ");
+	if (action == 8) { jwt_builder_header_del(reused, "x"); jwt_builder_claim_del(reused, "y"); }
 	jwt_builder_free(fresh);
 }
 
@@ -263,8 +274,8 @@ int main(int argc, char **argv)
 		for (int prov = 0; prov < 2; prov++)
 		for (int nc = 0; nc < 2; nc++)
 		for (int cfg = 0; cfg < NBCFG; cfg++)
-		for (int a1 = 0; a1 < 8; a1++)
-		for (int a2 = 0; a2 < 8; a2++)
+		for (int a1 = 0; a1 < 9; a1++)
+		for (int a2 = 0; a2 < 9; a2++)
 		for (int cl = 0; cl < 2; cl++, hist++) {
 			bctx_t ctx = { 0, 0 };
 			jwt_builder_t *b;
@@ -300,7 +311,7 @@ int main(int argc, char **argv)
 				nocb = (int)vh_below(&rng, 2);
 				b = mk_builder(cfg, &ctx);
 				for (int s = 0; s < len; s++)
-					gen_step(h, s, cfg, b, &ctx, (int)vh_below(&rng, 8), (int)vh_below(&rng, 2));
+					gen_step(h, s, cfg, b, &ctx, (int)vh_below(&rng, 9), (int)vh_below(&rng, 2));
 				jwt_builder_free(b);
 			}
 		}
